@@ -215,8 +215,23 @@ def gen_geo_case(rnd, want_auto=None, argtypes=True, coordapi=True):
     api = 'geo2grid'
     if coordapi and zone == 0 and rnd.random() < 0.12:
         api = 'CoordGeo.tm'
-    return {'mode': 'geo', 'ell': ell, 'prj': prj, 'lat': lat, 'lon': lon, 'zone': zone,
+    rep = None
+    if argt == 'float':
+        # the same position delivered another way (int, numpy scalars, a float subclass); whole degrees for the integer kinds
+        rep = core.choose_rep(rnd)
+        if core.rep_wants_integers(rep):
+            nlat, nlon = float(round(lat)), float(round(lon))
+            if nlon >= 180.0:
+                nlon = -180.0
+            okz = zone == 0 or abs(core.wrap180(nlon - central_meridian(prj, zone))) <= MAXDL
+            if -80.0 <= nlat <= 84.0 and okz and (zone != 0 or any(lo_ <= nlon < hi_ for lo_, hi_ in zone_coverage(prj))):
+                lat, lon = nlat, nlon
+                kind = 'whole-degrees'
+    case = {'mode': 'geo', 'ell': ell, 'prj': prj, 'lat': lat, 'lon': lon, 'zone': zone,
             'argt': argt, 'api': api, 'kind': kind}
+    if rep:
+        case['rep'] = rep
+    return case
 
 
 def gen_grid_case(rnd, ns=None):
@@ -227,7 +242,7 @@ def gen_grid_case(rnd, ns=None):
         ell = 'ans'
     fe, fn, k0, zw, icm = prj_published(prj)
     zone = rnd.choice(zones_of(prj))
-    hemi = rnd.choice(['north', 'south', 'North', 'South'])
+    hemi = rnd.choice(['north', 'south', 'North', 'South', 'north', 'south', 'NORTH', 'SOUTH'])
     a, invf = ell_published(ell)
     r = rnd.random()
     kind = 'lattice'
@@ -257,8 +272,14 @@ def gen_grid_case(rnd, ns=None):
             north = min(max(fn - rnd.choice([0.0, 0.0001, 1.0, 100.0]), 0.0), 1e7)
         if hemi.lower() == 'north' and rnd.random() < 0.5:
             north = rnd.choice([0.0, 0.0001, 1.0, 100.0])
-    return {'mode': 'grid', 'ell': ell, 'prj': prj, 'zone': zone, 'east': east, 'north': north,
+    case = {'mode': 'grid', 'ell': ell, 'prj': prj, 'zone': zone, 'east': east, 'north': north,
             'hemi': hemi, 'kind': kind}
+    rep = core.choose_rep(rnd)
+    if rep:
+        case['rep'] = rep
+        if core.rep_wants_integers(rep):
+            case['east'], case['north'] = float(round(east)), float(round(north))
+    return case
 
 
 # ---------------------------------------------------------------------------------------------
@@ -276,7 +297,9 @@ def bucket_geo(ctx, case, lat, dl):
                case['prj'] if isinstance(case['prj'], str) else 'custom-prj',
                'S' if lat < 0 else 'N', 'auto' if case['zone'] == 0 else 'explicit',
                _bin(abs(dl), [0.01, 1, 3, 6, 12, 20, 30]), _bin(abs(lat), [1e-6, 1, 30, 60, 77, 84]),
-               case.get('argt', 'float'), case.get('api', 'geo2grid'), 'W' if dl < 0 else 'E')
+               case.get('rep') or case.get('argt', 'float'), case.get('api', 'geo2grid'), 'W' if dl < 0 else 'E')
+    if case.get('rep'):
+        ctx.count('argument_representation:' + case['rep'])
 
 
 _standalone = {}
@@ -298,7 +321,8 @@ def denoted_args(ns, case):
     where the floats are the values the arguments *denote* (exact rational, rounded once)."""
     argt = case.get('argt', 'float')
     if argt == 'float':
-        return case['lat'], case['lon'], float(case['lat']), float(case['lon'])
+        la, lo = core.rep_values(case.get('rep'), case['lat'], case['lon'])
+        return la, lo, float(case['lat']), float(case['lon'])
     try:
         la = ax.make_object(ns.angles, argt, case['lat'])
         lo = ax.make_object(ns.angles, argt, case['lon'])
@@ -333,6 +357,7 @@ def in_c01_domain(case, latf, lonf):
 def call_forward(ns, case, la, lo, ell, prj):
     if case.get('api') == 'CoordGeo.tm':
         if case.get('argt', 'float') == 'float':
+            # the coordinate classes document and enforce plain float / angle-class arguments: no other representation
             la, lo = float(la), float(lo)
         c = ns.coord.CoordGeo(la, lo).tm(ell, prj)
         hemi = 'North' if c.hemi_north else 'South'
@@ -340,7 +365,7 @@ def call_forward(ns, case, la, lo, ell, prj):
         if c.projection is not prj:
             out = out + ('projection-object-changed',)
         return out
-    return ns.convert.geo2grid(la, lo, case['zone'], ell, prj)
+    return ns.convert.geo2grid(la, lo, core.rep_value(case.get('rep'), case['zone']), ell, prj)
 
 
 # ---------------------------------------------------------------------------------------------
@@ -465,7 +490,7 @@ def judge_forward(ns, ctx, case, aspects):
         with warnings.catch_warnings():
             warnings.simplefilter('ignore')
             try:
-                inv = ns.convert.grid2geo(zone, east, north, hemi, ell, prj)
+                inv = ns.convert.grid2geo(*core.rep_values(case.get('rep'), zone, east, north), hemi, ell, prj)
             except Exception as e:
                 if 'RT' in aspects:
                     ctx.violation('inverse-exception', case, {'exception': repr(e), 'grid': [zone, east, north, hemi]})
@@ -541,7 +566,7 @@ def judge_grid(ns, ctx, case, aspects):
     with warnings.catch_warnings():
         warnings.simplefilter('ignore')
         try:
-            lat, lon, psf, conv = ns.convert.grid2geo(zone, east, north, hemi, ell, prj)
+            lat, lon, psf, conv = ns.convert.grid2geo(*core.rep_values(case.get('rep'), zone, east, north), hemi, ell, prj)
         except Exception as e:
             ctx.judged()
             ctx.violation('inverse-exception', case, {'exception': repr(e)})
@@ -550,7 +575,9 @@ def judge_grid(ns, ctx, case, aspects):
     ctx.bucket('grid', case['ell'] if isinstance(case['ell'], str) else 'custom-ell',
                case['prj'] if isinstance(case['prj'], str) else 'custom-prj',
                'S' if south else 'N', _bin(abs(dl_o), [0.01, 1, 3, 6, 12, 20, 30]),
-               _bin(abs(la_o), [1e-3, 1, 30, 60, 77, 84]), 'W' if dl_o < 0 else 'E', case.get('kind'))
+               _bin(abs(la_o), [1e-3, 1, 30, 60, 77, 84]), 'W' if dl_o < 0 else 'E', case.get('kind'), case.get('rep'))
+    if case.get('rep'):
+        ctx.count('argument_representation:' + case['rep'])
     if 'I' in aspects:
         arc = math.hypot(lat - la_o, (lon - lon_o) * math.cos(math.radians(la_o)))
         if not ctx.ratio('C02.inverse-vs-oracle-arc', arc, TOL_ARC):
@@ -586,7 +613,7 @@ def judge_grid(ns, ctx, case, aspects):
             with warnings.catch_warnings():
                 warnings.simplefilter('ignore')
                 try:
-                    lat_m, lon_m, psf_m, conv_m = ns.convert.grid2geo(zone, east, n_m, hemi_m, ell, prj)
+                    lat_m, lon_m, psf_m, conv_m = ns.convert.grid2geo(*core.rep_values(case.get('rep'), zone, east, n_m), hemi_m, ell, prj)
                     ctx.count('mirror')
                     d = max(abs(lat_m + lat), abs(lon_m - lon))
                     if not ctx.ratio('C02.mirror', d, 1.5e-11):
